@@ -13,23 +13,20 @@ inductive Ev
   | cv (s : Slot) (v : ConstVal)
   | svc (name ext : Bytes)
 
-def fieldEvs (sname : Bytes) : Nat → List Field → List Ev
+/-- a member list (struct fields, arguments, throws): type, then default if set -/
+def fieldEvs (mk : Nat → Slot) : Nat → List Field → List Ev
   | _, [] => []
   | k, fl :: r =>
-    (Ev.ty (.field sname k) fl.type ::
+    (Ev.ty (mk k) fl.type ::
       (match fl.dflt with
-       | some d => [Ev.cv (.field sname k) d]
-       | none => [])) ++ fieldEvs sname (k + 1) r
-
-def argEvs (mk : Nat → Slot) : Nat → List Field → List Ev
-  | _, [] => []
-  | k, fl :: r => Ev.ty (mk k) fl.type :: argEvs mk (k + 1) r
+       | some d => [Ev.cv (mk k) d]
+       | none => [])) ++ fieldEvs mk (k + 1) r
 
 def fnEv (svc : Bytes) (k : Nat) (fn : Function) : List Ev :=
   (match fn.ret with
    | some t => [Ev.ty (.ret svc k) t]
    | none => []) ++
-  (argEvs (fun a => .arg svc k a) 0 fn.args ++ argEvs (fun a => .throw svc k a) 0 fn.throws)
+  (fieldEvs (fun a => .arg svc k a) 0 fn.args ++ fieldEvs (fun a => .throw svc k a) 0 fn.throws)
 
 def fnEvs (svc : Bytes) : Nat → List Function → List Ev
   | _, [] => []
@@ -41,7 +38,7 @@ def svcEvs (s : Service) : List Ev := fnEvs s.name 0 s.functions ++ [Ev.svc s.na
 def File.events (f : File) : List Ev :=
   ((f.typedefs.map (fun td => Ev.ty (.typedef td.alias) td.type) ++
     f.constants.flatMap (fun c => [Ev.ty (.const c.name) c.type, Ev.cv (.const c.name) c.value])) ++
-   f.structLikes.flatMap (fun s => fieldEvs s.name 0 s.fields)) ++
+   f.structLikes.flatMap (fun s => fieldEvs (fun k => .field s.name k) 0 s.fields)) ++
   f.services.flatMap svcEvs
 
 def Out.seq (a b : Out DefOut) : Out DefOut := ⟨a.val.append b.val, a.work ++ b.work, a.used ++ b.used⟩
@@ -159,32 +156,27 @@ theorem evsOf_const {α} (ev : α → List Ev) : ∀ (l : List α) (k : Nat),
   | [], _ => rfl
   | x :: r, k => by simp [evsOf, evsOf_const ev r (k + 1)]
 
-theorem evsOf_field (sname : Bytes) : ∀ (l : List Field) (k : Nat),
+theorem evsOf_field (mk : Nat → Slot) : ∀ (l : List Field) (k : Nat),
     evsOf (fun k (fl : Field) =>
-      Ev.ty (.field sname k) fl.type ::
+      Ev.ty (mk k) fl.type ::
         (match fl.dflt with
-         | some d => [Ev.cv (.field sname k) d]
-         | none => [])) k l = fieldEvs sname k l
+         | some d => [Ev.cv (mk k) d]
+         | none => [])) k l = fieldEvs mk k l
   | [], _ => rfl
-  | x :: r, k => by simp [evsOf, fieldEvs, evsOf_field sname r (k + 1)]
-
-theorem evsOf_arg (mk : Nat → Slot) : ∀ (l : List Field) (k : Nat),
-    evsOf (fun k (fl : Field) => [Ev.ty (mk k) fl.type]) k l = argEvs mk k l
-  | [], _ => rfl
-  | x :: r, k => by simp [evsOf, argEvs, evsOf_arg mk r (k + 1)]
+  | x :: r, k => by simp [evsOf, fieldEvs, evsOf_field mk r (k + 1)]
 
 theorem evsOf_fn (svc : Bytes) : ∀ (l : List Function) (k : Nat),
     evsOf (fnEv svc) k l = fnEvs svc k l
   | [], _ => rfl
   | x :: r, k => by simp [evsOf, fnEvs, evsOf_fn svc r (k + 1)]
 
-theorem resolveField_trace {ce : CEnv} {sname : Bytes} {k : Nat} {fl : Field} {o : Out DefOut}
-    (h : resolveField ce sname k fl = .ok o) :
-    Trace ce (Ev.ty (.field sname k) fl.type ::
+theorem resolveMember_trace {ce : CEnv} {mk : Nat → Slot} {k : Nat} {fl : Field} {o : Out DefOut}
+    (h : resolveMember ce mk k fl = .ok o) :
+    Trace ce (Ev.ty (mk k) fl.type ::
         (match fl.dflt with
-         | some d => [Ev.cv (.field sname k) d]
+         | some d => [Ev.cv (mk k) d]
          | none => [])) o := by
-  unfold resolveField at h
+  unfold resolveMember at h
   cases hd : fl.dflt with
   | none =>
     rw [hd] at h
@@ -195,15 +187,15 @@ theorem resolveField_trace {ce : CEnv} {sname : Bytes} {k : Nat} {fl : Field} {o
     exact (resolveSlot_trace hx).append (resolveSlotConst_trace hy)
 
 theorem resolveFunction_trace {ce : CEnv} {svc : Bytes} {k : Nat} {fn : Function} {o : Out DefOut}
-    (h : resolveFunction ce.env svc k fn = .ok o) : Trace ce (fnEv svc k fn) o := by
+    (h : resolveFunction ce svc k fn = .ok o) : Trace ce (fnEv svc k fn) o := by
   unfold resolveFunction at h
   obtain ⟨x, y, hx, hy, rfl⟩ := seqOut_ok h
   obtain ⟨ya, yt, hya, hyt, rfl⟩ := seqOut_ok hy
-  have ta := flat_trace (ce := ce) (fun a (fl : Field) => resolveSlot ce.env (.arg svc k a) fl.type)
-    (fun a fl => [Ev.ty (.arg svc k a) fl.type]) (fun a fl o h => resolveSlot_trace h) fn.args 0 ya hya
-  have tt := flat_trace (ce := ce) (fun a (fl : Field) => resolveSlot ce.env (.throw svc k a) fl.type)
-    (fun a fl => [Ev.ty (.throw svc k a) fl.type]) (fun a fl o h => resolveSlot_trace h) fn.throws 0 yt hyt
-  rw [evsOf_arg] at ta tt
+  have ta := flat_trace (ce := ce) (resolveMember ce (fun a => .arg svc k a)) _
+    (fun a fl o h => resolveMember_trace h) fn.args 0 ya hya
+  have tt := flat_trace (ce := ce) (resolveMember ce (fun a => .throw svc k a)) _
+    (fun a fl o h => resolveMember_trace h) fn.throws 0 yt hyt
+  rw [evsOf_field] at ta tt
   unfold fnEv
   refine Trace.append ?_ (ta.append tt)
   cases hr : fn.ret with
@@ -216,10 +208,10 @@ theorem resolveFunction_trace {ce : CEnv} {svc : Bytes} {k : Nat} {fn : Function
     exact resolveSlot_trace hx
 
 theorem resolveServiceDef_trace {ce : CEnv} {s : Service} {o : Out DefOut}
-    (h : resolveServiceDef ce.env s = .ok o) : Trace ce (svcEvs s) o := by
+    (h : resolveServiceDef ce s = .ok o) : Trace ce (svcEvs s) o := by
   unfold resolveServiceDef at h
   obtain ⟨x, y, hx, hy, rfl⟩ := seqOut_ok h
-  have tf := flat_trace (ce := ce) (resolveFunction ce.env s.name) (fnEv s.name)
+  have tf := flat_trace (ce := ce) (resolveFunction ce s.name) (fnEv s.name)
     (fun k fn o h => resolveFunction_trace h) s.functions 0 x hx
   rw [evsOf_fn] at tf
   unfold svcEvs
@@ -234,9 +226,10 @@ theorem resolveServiceDef_trace {ce : CEnv} {s : Service} {o : Out DefOut}
     rw [← hy]; exact this
 
 theorem resolveStructLikeDef_trace {ce : CEnv} {s : StructLike} {o : Out DefOut}
-    (h : resolveStructLikeDef ce s = .ok o) : Trace ce (fieldEvs s.name 0 s.fields) o := by
+    (h : resolveStructLikeDef ce s = .ok o) : Trace ce (fieldEvs (fun k => .field s.name k) 0 s.fields) o := by
   unfold resolveStructLikeDef at h
-  have := flat_trace (ce := ce) (resolveField ce s.name) _ (fun k fl o h => resolveField_trace h) s.fields 0 o h
+  have := flat_trace (ce := ce) (resolveMember ce (fun k => .field s.name k)) _
+    (fun k fl o h => resolveMember_trace h) s.fields 0 o h
   rw [evsOf_field] at this
   exact this
 
@@ -304,7 +297,7 @@ theorem resolveAST_phases {views : Nat → Option FileView} {gfuel i : Nat} {f :
           | ok ss =>
             rw [hss] at h
             simp only at h
-            cases hsv : flatOut (mapOut (resolveServiceDef (mkEnv n2cL incs)) f.services) with
+            cases hsv : flatOut (mapOut (resolveServiceDef ce) f.services) with
             | error e => rw [hsv] at h; simp at h
             | ok svs =>
               rw [hsv] at h
@@ -334,8 +327,8 @@ theorem resolveAST_phases {views : Nat → Option FileView} {gfuel i : Nat} {f :
                   (fun c o ho => resolveConstantDef_trace ho) f.constants cs hcs
                 have t3 := flatOut_mapOut_trace (ce := ce) (resolveStructLikeDef ce) _
                   (fun c o ho => resolveStructLikeDef_trace ho) f.structLikes ss hss
-                have t4 := flatOut_mapOut_trace (ce := ce) (resolveServiceDef (mkEnv n2cL incs)) svcEvs
-                  (fun c o ho => by rw [← hceenv] at ho; exact resolveServiceDef_trace ho) f.services svs hsv
+                have t4 := flatOut_mapOut_trace (ce := ce) (resolveServiceDef ce) svcEvs
+                  (fun c o ho => resolveServiceDef_trace ho) f.services svs hsv
                 have tall := ((t1.append t2).append t3).append t4
                 subst hce
                 refine ⟨{ incs := incs, n2cL := n2cL, tds := tds
